@@ -23,7 +23,7 @@ INFO = {
     'assumptions': ['ideal signature / hash model', 'virtual-time loop', 'stub repository answers an Interest for a '
                     'certificate name with that certificate (or Nack / silence)'],
 }
-MANDATORY = {'chain': ['verdict-equals-chain-predicate'], 'ctor': ['constructor-checks-anchor'],
+MANDATORY = {'deep': ['verdict-equals-chain-predicate', 'reference-accepts-the-valid-chain'], 'chain': ['verdict-equals-chain-predicate'], 'ctor': ['constructor-checks-anchor'],
              'history': ['verdict-independent-of-history']}
 
 SCHEMA = '''
@@ -38,7 +38,7 @@ _C = {}
 
 
 def setup():
-    if _C:
+    if 'model' in _C:
         return _C
     from ndn.app_support.light_versec import compile_lvs, Checker
     _C['model'] = compile_lvs(SCHEMA)
@@ -89,6 +89,17 @@ def corrupt_sig(eng, wire):
     _, vs, ve = rv['#region']['sigvalue']
     pos = [vs, (vs + ve) // 2, ve - 1][eng.choice(3, 'sigpos')]
     delta = eng.int('sigdelta', 1, 255)          # any different value, relative to the (ideal) signature byte
+    w[pos] = (w[pos] + delta) % 256
+    return bwrap(w)
+
+
+def tamper(eng, wire, k):
+    """one byte of the element changed by a symbolic non-zero delta; position k/5 of the way from the Name to the end"""
+    w = list(blist(wire))
+    rv = ref.parse_data(w, ref.CERT)
+    a = rv['#region']['name_start']
+    pos = a + (len(w) - 1 - a) * k // 5
+    delta = eng.int('delta', 1, 255)
     w[pos] = (w[pos] + delta) % 256
     return bwrap(w)
 
@@ -313,6 +324,220 @@ def h_ctor(eng, case):
     eng.reach('end')
 
 
+# ---------------------------------------------------------------------------------------------
+# generated hierarchies of depth 1..4: the verdict is compared with a reference chain predicate
+# ---------------------------------------------------------------------------------------------
+def chain_schema(D):
+    lines = ['#KEY: "KEY"/_/_/_', '#l0: /"k"/#KEY']
+    for i in range(1, D):
+        lines.append('#l%d: /"k"/%s/#KEY <= #l%d' % (i, '/'.join('"a%d"' % j for j in range(1, i + 1)), i - 1))
+    lines.append('#other: /"k"/"o"/#KEY <= #l0')
+    lines.append('#data: /"k"/"d"/_ <= #l%d' % (D - 1))
+    return '\n'.join(lines) + '\n'
+
+
+def _signer(kind, ident, locator):
+    s, pub = mk_signer(kind, None, ident)
+    s.key_locator_name = locator
+    return s, pub
+
+
+def _tup(name):
+    return tuple(bytes(c) for c in name)
+
+
+def build_chain(eng, D, kinds, fault, link, tk=0):
+    """world of depth D: anchor (level 0), certificates of levels 1..D-1, a Data packet signed by level D-1; elements are
+    numbered from the packet upwards: element j is signed over link j by level D-1-j.  One fault at one link."""
+    import datetime
+    import ndn.encoding as enc
+    from ndn.app_support import security_v2 as sv
+    from ndn.security import DigestSha256Signer
+    from ndn.encoding import Name, Component
+    env.set_clock(lambda: 1700000000000)
+    d0, d1 = datetime.datetime(2020, 1, 1), datetime.datetime(2040, 1, 1)
+    X = Component.from_str('x')
+
+    def keyname(i):
+        return Name.from_str('/k/' + ''.join('a%d/' % j for j in range(1, i + 1)) + 'KEY/%d' % i)
+    # anchor: two passes (the key locator is its own certificate name)
+    s0, pub0 = _signer(kinds[0], 'L0', None)
+    n0, w0 = sv.new_cert(keyname(0), Component.from_str('self'), pub0, s0, d0, d1)
+    s0.key_locator_name = n0
+    n0, w0 = sv.new_cert(keyname(0), Component.from_str('self'), pub0, s0, d0, d1)
+    W = {'anchor': (n0, tobytes(w0), pub0), 'certs': {}, 'behaviour': {}, 'D': D}
+    signers = {0: s0}
+    pubs = {0: pub0}
+    # the sibling key: properly certified by the anchor, allowed by the schema as #other - but not as a signer of anything
+    so, pubo = _signer('ecdsa', 'other', None)
+    no, wo = sv.new_cert(Name.from_str('/k/o/KEY/9'), X, pubo, s0, d0, d1)
+    so.key_locator_name = no
+    W['certs'][_tup(no)] = tobytes(wo)
+    # a key whose certificate name fits no key rule of the schema (certified by the anchor all the same)
+    sz, pubz = _signer('ecdsa', 'zz', None)
+    nz, wz = sv.new_cert(Name.from_str('/k/zz/q/KEY/8'), X, pubz, s0, d0, d1)
+    sz.key_locator_name = nz
+    W['certs'][_tup(nz)] = tobytes(wz)
+
+    def issuer_for(elem_j, proper):
+        """the signer of element j under the fault"""
+        if link != elem_j:
+            return proper
+        if fault == 'issuer-not-allowed':
+            return so
+        if fault == 'wrong-name-shape':
+            return sz
+        if fault == 'unsigned':
+            return DigestSha256Signer()
+        return proper
+    names = {0: n0}
+    for i in range(1, D):
+        j = D - i                                   # element number of the certificate of level i
+        si, pubi = _signer(kinds[i], 'L%d' % i, None)
+        iss = issuer_for(j, signers[i - 1])
+        if link == j and fault == 'self-loop':
+            # certified by itself: two passes as for the anchor
+            ni, wi = sv.new_cert(keyname(i), X, pubi, si, d0, d1)
+            si.key_locator_name = ni
+            iss = si
+        ni, wi = sv.new_cert(keyname(i), X, pubi, iss, d0, d1)
+        si.key_locator_name = ni
+        wi = tobytes(wi)
+        if link == j and fault == 'sig-corrupt':
+            wi = corrupt_sig(eng, wi)
+        if link == j and fault == 'tamper':
+            wi = tamper(eng, wi, tk)
+        if link == j - 1 and fault == 'key-substituted':
+            # same certificate name, properly issued, but carrying the sibling's key bits
+            ni2, wi2 = sv.new_cert(keyname(i), X, pubo, iss, d0, d1)
+            wi = tobytes(wi2)
+        if link == j - 1 and fault in ('cert-nack', 'cert-timeout'):
+            W['behaviour'][_tup(ni)] = 'nack' if fault == 'cert-nack' else 'silence'
+        W['certs'][_tup(ni)] = wi
+        signers[i] = si
+        pubs[i] = pubi
+        names[i] = ni
+    pname = Name.from_str('/k/d/1')
+    sp = issuer_for(0, signers[D - 1])
+    if link == 0 and fault == 'self-loop':
+        sp, _ = _signer(kinds[D - 1], 'L%d' % (D - 1), pname)
+    packet = tobytes(enc.make_data(pname, enc.MetaInfo(), b'payload', sp))
+    if link == 0 and fault == 'sig-corrupt':
+        packet = corrupt_sig(eng, packet)
+    if link == 0 and fault == 'tamper':
+        packet = tamper(eng, packet, tk)
+    if fault == 'name-outside-schema':
+        packet = tobytes(enc.make_data('/k/e/1', enc.MetaInfo(), b'payload', signers[D - 1]))
+    W['packet'] = packet
+    return W
+
+
+def ref_verifies(key_bits, w, rv):
+    """signature of the element ``w`` (reference-parsed as rv) verifies under key_bits (ideal primitives)"""
+    si = rv.get('signature_info') or {}
+    typ = si.get('signature_type')
+    if 'sigvalue' not in rv['#region']:
+        return False
+    st, vs, ve = rv['#region']['sigvalue']
+    signed = w[rv['#region']['name_start']:st]
+    sig = w[vs:ve]
+    try:
+        if typ == 4:
+            h = crypto.HMAC.new(tobytes(bwrap(list(key_bits))))
+            h.update(bwrap(signed))
+            h.verify(bwrap(sig))
+            return True
+        hh = crypto.SHA256.new(bwrap(signed))
+        if typ == 1:
+            crypto.pkcs1_15.new(crypto.RSA.import_key(bwrap(list(key_bits)))).verify(hh, bwrap(sig))
+            return True
+        if typ == 3:
+            crypto.DSS.new(crypto.ECC.import_key(bwrap(list(key_bits))), 'fips-186-3', 'der').verify(hh, bwrap(sig))
+            return True
+    except ValueError:
+        return False
+    return False
+
+
+def ref_chain(W, schema, wire, budget=8):
+    """the chain predicate of the statement, computed from reference-parsed bytes and the source-level schema"""
+    if budget == 0:
+        return False
+    w = list(blist(wire))
+    try:
+        rv = ref.parse_data(w, ref.CERT)
+    except ref.RefReject:
+        return False
+    kl = ((rv.get('signature_info') or {}).get('key_locator') or {}).get('name')
+    if not kl:
+        return False
+    name = rv['name']
+    if not lvsref.ref_check(schema, [bytes(c) for c in name], [bytes(c) for c in kl]):
+        return False
+    klt = tuple(bytes(c) for c in kl)
+    if klt == _tup(W['anchor'][0]):
+        key = W['anchor'][2]
+    else:
+        if W['behaviour'].get(klt) or klt not in W['certs']:
+            return False
+        cw = W['certs'][klt]
+        if not ref_chain(W, schema, cw, budget - 1):
+            return False
+        key = ref.parse_data(list(blist(cw)), ref.CERT).get('content')
+        if not key:
+            return False
+    return ref_verifies(key, w, rv)
+
+
+def h_deep(eng, case):
+    import ndn.encoding as enc
+    from ndn.app_support.light_versec import Checker, lvs_validator, compile_lvs
+    from ndn.security.validator.cascade_validator import MemoryKeyStorage
+    D = case['depth']
+    text = chain_schema(D)
+    key = ('deep', D)
+    if key not in _C:
+        _C[key] = (compile_lvs(text), lvsref.Schema(text))
+    model, rschema = _C[key]
+    W = build_chain(eng, D, case['kinds'], case['fault'], case['link'], case.get('k', 0))
+    try:
+        ref.parse_data(list(blist(W['packet'])), ref.CERT)
+    except ref.RefReject:
+        eng.reach('tampered-packet-malformed')       # (decoding of ill-formed packets is C07's subject)
+        return
+    expect = ref_chain(W, rschema, W['packet'])
+    if case['fault'] == 'none':
+        eng.check(expect, 'reference-accepts-the-valid-chain')      # the reference itself is not vacuous
+
+    def mk(app):
+        return [lvs_validator(Checker(model, {}), app, W['anchor'][1], MemoryKeyStorage())]
+    WW = {'anchor': (W['anchor'][0], W['anchor'][1]), 'mid': (W['anchor'][0], W['anchor'][1]),
+          'other': (W['anchor'][0], W['anchor'][1])}
+    r, out, face, loop, err = run_validation(eng, WW, [W['packet']], mk, [(0, 0)], W['certs'], W['behaviour'])
+    if 'ctor_exc' in out:
+        eng.fail('constructor-accepts-valid-anchor', exc_sig(out['ctor_exc']), repr(out['ctor_exc'])[:120])
+        return
+    if r is None:
+        eng.fail('validation-terminates', 'deadlock')
+        return
+    got = r[0]
+    if isinstance(got, tuple):
+        eng.fail('validator-returns-a-verdict', got[1], {'fault': case['fault'], 'link': case['link']})
+        return
+    g = bool(got) if isinstance(got, bool) or got is None else got
+    eng.check(Iff(g, expect), 'verdict-equals-chain-predicate',
+              {'fault': case['fault'], 'depth': D, 'link': case['link'], 'got': repr(got)},
+              sig='%s:%s' % ('accepts' if got else 'rejects', case['fault']))
+    # certificates are asked for by exactly the names the chain mentions, each at most once per validation
+    asked = list(face.requests)
+    eng.check(len(asked) == len(set(asked)), 'each-certificate-fetched-once', {'asked': len(asked)})
+    if loop.errors:
+        exc = loop.errors[0].get('exception')
+        eng.fail('no-unhandled-error-in-loop', exc_sig(exc) if exc is not None else '?')
+    eng.observe('verdict', bool(got))
+    eng.reach('accepts' if got else 'rejects')
+
+
 CTOR_SCHEMAS = {
     # two roots of trust whose names are disjoint: no anchor matches both
     'two-roots-disjoint': '#KEY: "KEY"/_/_/_\n#root: /"k"/#KEY\n#root2: /"j"/#KEY\n#d: /"k"/"d"/_ <= #root\n#e: /"j"/"e"/_ <= #root2\n',
@@ -420,7 +645,7 @@ def h_history(eng, case):
     eng.reach('end')
 
 
-HARNESSES = {'ctor_roots': h_ctor_roots, 'chain': h_chain, 'ctor': h_ctor, 'history': h_history}
+HARNESSES = {'deep': h_deep, 'ctor_roots': h_ctor_roots, 'chain': h_chain, 'ctor': h_ctor, 'history': h_history}
 
 FAULTS = ['none', 'issuer-not-allowed', 'sig-corrupt', 'key-substituted', 'cert-nack', 'cert-timeout', 'unsigned',
           'locator-loop', 'name-outside-schema', 'mid-signed-by-other']
@@ -438,6 +663,24 @@ def cases(tier, seed):
     for kind in ('rsa', 'ecdsa', 'hmac'):
         for v in ('valid', 'corrupt', 'wrong-name', 'signed-by-other-key'):
             cs.append(('ctor', {'anchor_kind': kind, 'variant': v}))
+    deep_faults = ['none', 'sig-corrupt', 'issuer-not-allowed', 'wrong-name-shape', 'key-substituted', 'cert-nack',
+                   'cert-timeout', 'unsigned', 'self-loop', 'name-outside-schema']
+    kind_sets = {1: [['rsa'], ['ecdsa'], ['hmac']], 2: [['rsa', 'ecdsa'], ['ecdsa', 'hmac']],
+                 3: [['ecdsa', 'rsa', 'ecdsa'], ['hmac', 'ecdsa', 'rsa']], 4: [['rsa', 'ecdsa', 'hmac', 'ecdsa']]}
+    for D in (1, 2, 3) if tier == 'quick' else (1, 2, 3, 4):
+        for ki, kinds in enumerate(kind_sets[D]):
+            if tier == 'quick' and ki > 0 and D > 1:
+                continue
+            for f in deep_faults:
+                for link in range(D):
+                    if f in ('none', 'name-outside-schema') and link > 0:
+                        continue
+                    if f in ('key-substituted', 'cert-nack', 'cert-timeout') and link >= D - 1:
+                        continue               # the certificate behind the last link is the anchor itself
+                    cs.append(('deep', {'depth': D, 'kinds': kinds, 'fault': f, 'link': link}, {'weight': 5}))
+            for link in range(D):
+                for k in range(6):
+                    cs.append(('deep', {'depth': D, 'kinds': kinds, 'fault': 'tamper', 'link': link, 'k': k}, {'weight': 5}))
     for sch in CTOR_SCHEMAS:
         for kind in ('rsa', 'hmac'):
             cs.append(('ctor_roots', {'schema': sch, 'anchor_kind': kind}))
